@@ -203,8 +203,30 @@ pub fn build_tree(tree: &Tree) -> DynClause {
             crate::with_mock_fn!(*mid, f => build_stub(f, pats, &mut dc))
         }
         Tree::Tuple(cs) => {
-            for c in cs {
-                dc.push(build_tree(c));
+            // real tuples (the crate's own `Clause for (T1, .., Tn)` impls) for every arity 2..=16;
+            // other arities fall back to a run-time list
+            let kids: Vec<DynClause> = cs.iter().map(build_tree).collect();
+            match kids.len() {
+                2 => { let mut it = kids.into_iter(); let c0 = it.next().unwrap(); let c1 = it.next().unwrap(); dc.push((c0, c1)); }
+                3 => { let mut it = kids.into_iter(); let c0 = it.next().unwrap(); let c1 = it.next().unwrap(); let c2 = it.next().unwrap(); dc.push((c0, c1, c2)); }
+                4 => { let mut it = kids.into_iter(); let c0 = it.next().unwrap(); let c1 = it.next().unwrap(); let c2 = it.next().unwrap(); let c3 = it.next().unwrap(); dc.push((c0, c1, c2, c3)); }
+                5 => { let mut it = kids.into_iter(); let c0 = it.next().unwrap(); let c1 = it.next().unwrap(); let c2 = it.next().unwrap(); let c3 = it.next().unwrap(); let c4 = it.next().unwrap(); dc.push((c0, c1, c2, c3, c4)); }
+                6 => { let mut it = kids.into_iter(); let c0 = it.next().unwrap(); let c1 = it.next().unwrap(); let c2 = it.next().unwrap(); let c3 = it.next().unwrap(); let c4 = it.next().unwrap(); let c5 = it.next().unwrap(); dc.push((c0, c1, c2, c3, c4, c5)); }
+                7 => { let mut it = kids.into_iter(); let c0 = it.next().unwrap(); let c1 = it.next().unwrap(); let c2 = it.next().unwrap(); let c3 = it.next().unwrap(); let c4 = it.next().unwrap(); let c5 = it.next().unwrap(); let c6 = it.next().unwrap(); dc.push((c0, c1, c2, c3, c4, c5, c6)); }
+                8 => { let mut it = kids.into_iter(); let c0 = it.next().unwrap(); let c1 = it.next().unwrap(); let c2 = it.next().unwrap(); let c3 = it.next().unwrap(); let c4 = it.next().unwrap(); let c5 = it.next().unwrap(); let c6 = it.next().unwrap(); let c7 = it.next().unwrap(); dc.push((c0, c1, c2, c3, c4, c5, c6, c7)); }
+                9 => { let mut it = kids.into_iter(); let c0 = it.next().unwrap(); let c1 = it.next().unwrap(); let c2 = it.next().unwrap(); let c3 = it.next().unwrap(); let c4 = it.next().unwrap(); let c5 = it.next().unwrap(); let c6 = it.next().unwrap(); let c7 = it.next().unwrap(); let c8 = it.next().unwrap(); dc.push((c0, c1, c2, c3, c4, c5, c6, c7, c8)); }
+                10 => { let mut it = kids.into_iter(); let c0 = it.next().unwrap(); let c1 = it.next().unwrap(); let c2 = it.next().unwrap(); let c3 = it.next().unwrap(); let c4 = it.next().unwrap(); let c5 = it.next().unwrap(); let c6 = it.next().unwrap(); let c7 = it.next().unwrap(); let c8 = it.next().unwrap(); let c9 = it.next().unwrap(); dc.push((c0, c1, c2, c3, c4, c5, c6, c7, c8, c9)); }
+                11 => { let mut it = kids.into_iter(); let c0 = it.next().unwrap(); let c1 = it.next().unwrap(); let c2 = it.next().unwrap(); let c3 = it.next().unwrap(); let c4 = it.next().unwrap(); let c5 = it.next().unwrap(); let c6 = it.next().unwrap(); let c7 = it.next().unwrap(); let c8 = it.next().unwrap(); let c9 = it.next().unwrap(); let c10 = it.next().unwrap(); dc.push((c0, c1, c2, c3, c4, c5, c6, c7, c8, c9, c10)); }
+                12 => { let mut it = kids.into_iter(); let c0 = it.next().unwrap(); let c1 = it.next().unwrap(); let c2 = it.next().unwrap(); let c3 = it.next().unwrap(); let c4 = it.next().unwrap(); let c5 = it.next().unwrap(); let c6 = it.next().unwrap(); let c7 = it.next().unwrap(); let c8 = it.next().unwrap(); let c9 = it.next().unwrap(); let c10 = it.next().unwrap(); let c11 = it.next().unwrap(); dc.push((c0, c1, c2, c3, c4, c5, c6, c7, c8, c9, c10, c11)); }
+                13 => { let mut it = kids.into_iter(); let c0 = it.next().unwrap(); let c1 = it.next().unwrap(); let c2 = it.next().unwrap(); let c3 = it.next().unwrap(); let c4 = it.next().unwrap(); let c5 = it.next().unwrap(); let c6 = it.next().unwrap(); let c7 = it.next().unwrap(); let c8 = it.next().unwrap(); let c9 = it.next().unwrap(); let c10 = it.next().unwrap(); let c11 = it.next().unwrap(); let c12 = it.next().unwrap(); dc.push((c0, c1, c2, c3, c4, c5, c6, c7, c8, c9, c10, c11, c12)); }
+                14 => { let mut it = kids.into_iter(); let c0 = it.next().unwrap(); let c1 = it.next().unwrap(); let c2 = it.next().unwrap(); let c3 = it.next().unwrap(); let c4 = it.next().unwrap(); let c5 = it.next().unwrap(); let c6 = it.next().unwrap(); let c7 = it.next().unwrap(); let c8 = it.next().unwrap(); let c9 = it.next().unwrap(); let c10 = it.next().unwrap(); let c11 = it.next().unwrap(); let c12 = it.next().unwrap(); let c13 = it.next().unwrap(); dc.push((c0, c1, c2, c3, c4, c5, c6, c7, c8, c9, c10, c11, c12, c13)); }
+                15 => { let mut it = kids.into_iter(); let c0 = it.next().unwrap(); let c1 = it.next().unwrap(); let c2 = it.next().unwrap(); let c3 = it.next().unwrap(); let c4 = it.next().unwrap(); let c5 = it.next().unwrap(); let c6 = it.next().unwrap(); let c7 = it.next().unwrap(); let c8 = it.next().unwrap(); let c9 = it.next().unwrap(); let c10 = it.next().unwrap(); let c11 = it.next().unwrap(); let c12 = it.next().unwrap(); let c13 = it.next().unwrap(); let c14 = it.next().unwrap(); dc.push((c0, c1, c2, c3, c4, c5, c6, c7, c8, c9, c10, c11, c12, c13, c14)); }
+                16 => { let mut it = kids.into_iter(); let c0 = it.next().unwrap(); let c1 = it.next().unwrap(); let c2 = it.next().unwrap(); let c3 = it.next().unwrap(); let c4 = it.next().unwrap(); let c5 = it.next().unwrap(); let c6 = it.next().unwrap(); let c7 = it.next().unwrap(); let c8 = it.next().unwrap(); let c9 = it.next().unwrap(); let c10 = it.next().unwrap(); let c11 = it.next().unwrap(); let c12 = it.next().unwrap(); let c13 = it.next().unwrap(); let c14 = it.next().unwrap(); let c15 = it.next().unwrap(); dc.push((c0, c1, c2, c3, c4, c5, c6, c7, c8, c9, c10, c11, c12, c13, c14, c15)); }
+                _ => {
+                    for k in kids {
+                        dc.push(k);
+                    }
+                }
             }
         }
     }
